@@ -37,6 +37,17 @@ def _rec(fn, pos, f):
     return base
 
 
+QUICK = [True]
+
+
+def _positions(src):
+    n = len(src)
+    if n <= 24 or not QUICK[0]:
+        return range(-1, n + 2)
+    h = zlib.crc32(src.encode())
+    return [p for p in range(-1, n + 2) if p <= 1 or p >= n - 1 or (p + h) % 3 == 0]
+
+
 def _chunk(items):
     from emmet import html_matcher as hm
     from emmet import css_matcher as cm
@@ -59,7 +70,7 @@ def _chunk(items):
                     if a.value is not None:
                         b['r'].append([a.value_start, a.value_end])
             calls.append(_rec('html.attributes', 0, f))
-            for pos in range(-1, len(src) + 2):
+            for pos in _positions(src):
                 for xml in (False, True):
                     opt = {'xml': xml}
                     mres = []
@@ -96,7 +107,7 @@ def _chunk(items):
             def f(b):
                 b['r'] += [list(r) for r in split_value(src)]
             calls.append(_rec('css.split_value', 0, f))
-            for pos in range(-1, len(src) + 2):
+            for pos in _positions(src):
                 def f(b):
                     m = cm.match(src, pos)
                     if m is not None:
@@ -130,18 +141,21 @@ def _prefixes(doc):
 
 def run(out):
     quick = out.tier == 'quick'
+    QUICK[0] = quick
     out.rule = ('one trace per source string (every string over the 14-symbol HTML / 13-symbol CSS punctuation alphabet up to the bound, '
                 'simulated longer ones, one-character mutations and all prefixes of valid documents), one event per call; positions -1 .. '
-                'len+1; HTML in both modes; non-trivial = the scanner reported at least one token; distinct by string')
+                'len+1 (every third one for sources longer than 24 characters in the quick tier); HTML in both modes; non-trivial = the scanner reported at least one token; distinct by string')
     out.assumptions = ['TLC, Json/IOUtils trusted']
     insts = [('html-exhaustive', 'html', dict(constants={'Alphabet': HTML_ALPHA, 'MaxLen': 3 if quick else 4})),
-             ('html-simulated', 'html', dict(constants={'Alphabet': HTML_ALPHA, 'MaxLen': 12}, simulate=2 if quick else 60, depth=12, seed=out.seed)),
+             ('html-simulated', 'html', dict(constants={'Alphabet': HTML_ALPHA, 'MaxLen': 12}, simulate=3 if quick else 40, depth=12, seed=out.seed)),
              ('css-exhaustive', 'css', dict(constants={'Alphabet': CSS_ALPHA, 'MaxLen': 3 if quick else 4})),
-             ('css-simulated', 'css', dict(constants={'Alphabet': CSS_ALPHA, 'MaxLen': 12}, simulate=2 if quick else 60, depth=12, seed=out.seed + 1))]
+             ('css-simulated', 'css', dict(constants={'Alphabet': CSS_ALPHA, 'MaxLen': 12}, simulate=3 if quick else 40, depth=12, seed=out.seed + 1))]
     work = []
     for name, lang, kw in insts:
         r = common.run_tlc('Strings', timeout=3000, heap='12g', **kw)
         strings = sorted(set(v['s'] for v in r.vectors()))
+        if r.mode == 'simulate':
+            strings = common.sample(strings, 1500 if quick else 20000, out.seed, key=str)
         if r.mode == 'bfs':
             out.exhaustive = r.exhaustive if out.exhaustive is None else (out.exhaustive and r.exhaustive)
         out.add_tlc(name + '-generator', r, strings=len(strings))
